@@ -294,6 +294,17 @@ def replay(case, root, ctx=None, kill_at=None, collect=None):
                 ctx.check("C11.loads", all(g.check(x) for x in keys) and g.elements_added == ref.elements_added, "closed file loads differently")
             cwd, arg = W.arg(op[1], op[2])
             os.chdir(cwd)
+            if ctx is not None and oi % 2 == 0:
+                # a constructor call on the existing file that is REFUSED (sizing the library rejects) must not have touched the file
+                held = read_file(ctx, W.fileabs, "before a refused constructor call")
+                try:
+                    BloomFilterOnDisk(arg, max(1, case["est"]), 2.0, hash_function=hf)
+                    feats.add("unusable_rate_accepted")
+                except Exception:  # noqa  which exception is raised is not specified
+                    now = read_file(ctx, W.fileabs, "after a refused constructor call")
+                    ctx.check("C11.closed_equals_memory", now == held,
+                              lambda: f"a REFUSED BloomFilterOnDisk(path, est, 2.0) call on the closed backing file changed it ({len(held)} -> {len(now)} bytes)")
+                    feats.add("refused_constructor_on_existing_file")
             o = call(BloomFilterOnDisk, arg, hash_function=hf)
             if ctx is not None:
                 ctx.check("C11.reopen", all(o.check(x) for x in keys), lambda: f"reopened ({op[1]}, elsewhere={op[2]}) filter misses an added key")
